@@ -37,6 +37,7 @@ enum Kind
     K_CLOSE,  // thread slot
     K_THRESH, // thread n level
     K_JUMP,   // thread delta_ms (signed via offset)
+    K_MOVE,   // thread slot: the named stream is move-constructed into a new object, the old one destroyed
     K_N
 };
 const std::vector<OpSchema>& ls_schema()
@@ -45,6 +46,7 @@ const std::vector<OpSchema>& ls_schema()
         { "stmt", { "thread", "sev", "tag", "unwinding" } },     { "open", { "thread", "slot", "sev", "tag" } },
         { "put", { "thread", "slot", "n" } },       { "close", { "thread", "slot" } },
         { "set_threshold", { "thread", "n", "level" } }, { "clock_jump", { "thread", "delta" } },
+        { "move_named", { "thread", "slot" } },
     };
     return s;
 }
@@ -100,6 +102,9 @@ bool parse_device(const std::string& d, std::vector<DevRec>& out)
     }
     return true;
 }
+
+Counter p_nested("probe.statement_issued_from_inside_a_streamed_callable");
+Counter p_moved_named("probe.named_stream_moved_to_a_new_object");
 
 class LogEngine : public Engine
 {
@@ -204,9 +209,9 @@ public:
             }
             for (int k = 0; k < n; k++)
             {
-                static const char kinds[] = "sskhiuldbppccgfxnmzrya";
+                static const char kinds[] = "sskhiuldbppccgfxnmzryaHAWN";
                 char kd = kinds[rng.below(sizeof kinds - 1)];
-                if (strchr("cgfnmrya", kd) && !lazy_ok)
+                if (strchr("cgfnmryaN", kd) && !lazy_ok)
                     kd = 's';
                 if (kd == 'x' && !throw_ok)
                     kd = 'c';
@@ -298,6 +303,14 @@ public:
                         remaining[sl] -= static_cast<int>(pu.a[2]);
                         prog[static_cast<size_t>(t)].push_back(pu);
                     }
+                    if (rng.chance(1, 6))
+                    {
+                        Op mv;
+                        mv.kind = K_MOVE;
+                        mv.a[0] = t;
+                        mv.a[1] = sl;
+                        prog[static_cast<size_t>(t)].push_back(mv);
+                    }
                     if (rng.chance(1, 2))
                     {
                         Op c;
@@ -344,6 +357,43 @@ public:
     }
 
     // ------------------------------------------------------------ execution
+    static std::map<std::pair<int, int>, int> nested_children;
+    static const LoggerEntry* current_entry;
+    static void nested_hook(int parent, int item)
+    {
+        auto it = nested_children.find(std::make_pair(parent, item));
+        int me = Scheduler::self_id();
+        if (it == nested_children.end() || me < 0 || !current_entry)
+            return;
+        int child = it->second;
+        TCtx saved = g.tctx[me];
+        Stmt& c = g.stmts[static_cast<size_t>(child)];
+        if (c.begun)
+            return; // the callable is (wrongly) running a second time: the call counters report that
+        {
+            NoFault nf;
+            p_nested++;
+            c.begun = true;
+            c.begin_seq = g.seq++;
+            c.th_states.push_back(std::array<int, 3>{ g.th[0], g.th[1], g.th[2] });
+            ++g.inflight;
+        }
+        g.tctx[me].cur_stmt = child;
+        g.tctx[me].cur_item = -1;
+        PutCtx pc{ child, stmt_id(c.thread, child) };
+        try
+        {
+            current_entry->expr_stmt(c.sev, TAGS[c.tag], pc, c.items);
+        }
+        catch (CallableThrow&)
+        {
+            c.threw = true;
+        }
+        c.ended = true;
+        c.end_seq = g.seq++;
+        --g.inflight;
+        g.tctx[me] = saved;
+    }
     struct ThreadProg
     {
         std::vector<int> ops; // indices into plan.ops
@@ -426,6 +476,25 @@ public:
                 g.stmts.push_back(std::move(s));
             }
         }
+        // a nested item ('N') owns a child statement that its callable issues while it runs
+        nested_children.clear();
+        for (size_t si = 0, n0 = g.stmts.size(); si < n0; si++)
+            for (size_t k = 0; k < g.stmts[si].items.size(); k++)
+                if (g.stmts[si].items[k].kind == 'N')
+                {
+                    Stmt c;
+                    c.op = g.stmts[si].op;
+                    c.thread = g.stmts[si].thread;
+                    c.form = 0;
+                    c.sev = static_cast<int>(g.stmts[si].items[k].val % 6);
+                    c.tag = static_cast<int>((g.stmts[si].items[k].val / 6) % 4);
+                    c.items = parse_items("i" + std::to_string(g.stmts[si].items[k].val % 1000) + ",k1");
+                    nested_children[std::make_pair(static_cast<int>(si), static_cast<int>(k))] = static_cast<int>(g.stmts.size());
+                    g.stmts.push_back(std::move(c));
+                }
+        g.stmts.reserve(g.stmts.size() + 1); // no reallocation while threads hold references
+        current_entry = &le;
+        g_nested_hook = &LogEngine::nested_hook;
         int strategy = static_cast<int>(plan.knob("strategy", 0) & 1);
         (strategy ? p_pct : p_uniform)++;
         Rng srng(sseed);
@@ -621,6 +690,23 @@ public:
                     case K_CLOSE:
                         close_slot(static_cast<int>(op.a[1] & 1));
                         break;
+                    case K_MOVE:
+                    {
+                        int sl = static_cast<int>(op.a[1] & 1);
+                        if (!slot[sl])
+                            break;
+                        tc.cur_stmt = slot_stmt[sl];
+                        NamedBase* moved = nullptr;
+                        {
+                            FaultWindow w;
+                            moved = slot[sl]->move_out();
+                            delete slot[sl]; // the moved-from stream dies without a trace
+                        }
+                        slot[sl] = moved;
+                        p_moved_named++;
+                        tc.cur_stmt = -1;
+                        break;
+                    }
                     case K_THRESH:
                     {
                         int n = static_cast<int>(op.a[1] % 3), lv = static_cast<int>(op.a[2] % 6);
@@ -730,18 +816,21 @@ public:
             int nfmt = static_cast<int>(s.fmts.size());
             int ncall_items = 0;
             for (auto& it : s.items)
-                if (strchr("cgfxnmrya", it.kind))
+                if (strchr("cgfxnmryaN", it.kind))
                     ++ncall_items;
             (void)ncall_items;
             // expected message = id + renderings of completed insertions, in order
-            std::string expect_msg = s.noid ? std::string() : stmt_id(s.thread, static_cast<int>(si));
+            std::ostringstream ref_stream; // one stream per statement: manipulators act on later items
+            if (!s.noid)
+                ref_stream << stmt_id(s.thread, static_cast<int>(si));
             if (s.noid && s.items.empty())
                 p_nothing_streamed++;
             {
                 std::vector<int> done = s.put_done;
                 for (int k : done)
-                    expect_msg += render(s.items[static_cast<size_t>(k)]);
+                    render_into(ref_stream, s.items[static_cast<size_t>(k)]);
             }
+            std::string expect_msg = ref_stream.str();
             if (s.sev < MIN)
             {
                 p_below_min++;
@@ -783,7 +872,7 @@ public:
                     return flag("C10/formatter-or-sink-called-when-rejected", sig, s.op,
                                 std::string("statement rejected by filter ") + EXPRNAME[le.expr] + " reached the formatter/sink");
                 for (auto& it : s.items)
-                    if (strchr("cgfxnmrya", it.kind))
+                    if (strchr("cgfxnmryaN", it.kind))
                     {
                         p_callable_rejected++;
                         break;
@@ -825,7 +914,7 @@ public:
                         return flag("C10/callable-deferred", sig, s.op, "callable invoked outside the insertion that streamed it");
                 }
                 for (int k : s.put_done)
-                    if (strchr("cgfnmrya", s.items[static_cast<size_t>(k)].kind))
+                    if (strchr("cgfnmryaN", s.items[static_cast<size_t>(k)].kind))
                     {
                         p_callable_emitted++;
                         if (cnt[k] != 1)
@@ -1001,6 +1090,8 @@ public:
         }
     }
 };
+std::map<std::pair<int, int>, int> LogEngine::nested_children;
+const LoggerEntry* LogEngine::current_entry = nullptr;
 } // namespace
 
 static bool is_recursive(const pthread_mutex_t* m)
